@@ -208,6 +208,8 @@ def run_check(mod, args):
         if f is not None:
             known_seen.setdefault(f["id"], [f, 0])
             known_seen[f["id"]][1] += len(vs)
+            if os.environ.get("VERIF_DEBUG"):
+                print("   KSIG", f["id"], sig, len(vs))
         else:
             # smallest trace first: cheaper to minimise
             vs.sort(key=lambda v: len(common.jdump(v["trace"])))
